@@ -188,6 +188,9 @@ def cases(tier, seed):
         yield c(fmt="max", cols=16, rows=3, how="rows", mode=mode, skip=9)
     for skip in range(0, 21):
         yield c(fmt="max", cols=16, rows=2, how="length", mode="bw", skip=skip)
+        # every header variant combined with -s (the skip must happen before whichever header is read)
+        yield c(fmt="max", cols=24, rows=3, how="newsroom", mode=modes[skip % len(modes)], skip=skip)
+        yield c(fmt="max", cols=40, rows=2, how="rows", mode=modes[(skip + 3) % len(modes)], skip=skip)
     for side in range(2, 66, 2):
         if q and side % 6:
             continue
